@@ -42,24 +42,39 @@ def _const_str(n):
 def _tokens(repo):
     tree = _tree(repo, UTIL)
     con = find_def(tree, 'construct')
+    params = [a.arg for a in con.args.args]
+    if len(params) != 3:
+        raise Untranslatable('util.construct: signature changed')
+    _pname, pparent, pver = params
+    consts = {st.targets[0].id: st.value for st in tree.body
+              if isinstance(st, ast.Assign) and len(st.targets) == 1 and isinstance(st.targets[0], ast.Name)
+              and _const_str(st.value)}
+
+    def tok(n):
+        if _const_str(n):
+            return n.value
+        if isinstance(n, ast.Name) and n.id in consts:
+            return consts[n.id].value
+        return None
     toks = {}
     for st in ast.walk(con):
         if isinstance(st, ast.Assign) and isinstance(st.value, ast.BinOp):
             v = st.value
-            # (A + 'tok') + B
+            # (A + 'tok') + B   with A = str(parent), B a local name  /  A a local name, B = ver.asstring()
             if (isinstance(v.op, ast.Add) and isinstance(v.left, ast.BinOp) and isinstance(v.left.op, ast.Add)
-                    and _const_str(v.left.right)):
+                    and tok(v.left.right) is not None):
                 left, right = ast.unparse(v.left.left), ast.unparse(v.right)
-                if left == 'str(parent)' and right == 'name':
-                    toks['parent'] = v.left.right.value
-                elif left == 'name' and right == 'ver.asstring()':
-                    toks['version'] = v.left.right.value
+                if left == f'str({pparent})' and isinstance(v.right, ast.Name):
+                    toks['parent'] = tok(v.left.right)
+                elif isinstance(v.left.left, ast.Name) and right == f'{pver}.asstring()':
+                    toks['version'] = tok(v.left.right)
                 else:
                     raise Untranslatable(f'util.construct: unexpected concatenation {ast.unparse(v)}')
     if set(toks) != {'parent', 'version'}:
         raise Untranslatable('util.construct: the two token concatenations were not found')
     dis = find_def(tree, 'dissect')
-    used = sorted({n.value for n in ast.walk(dis) if _const_str(n)})
+    used = sorted({n.value for n in ast.walk(dis) if _const_str(n)}
+                  | {consts[n.id].value for n in ast.walk(dis) if isinstance(n, ast.Name) and n.id in consts})
     if used != sorted(toks.values()):
         raise Untranslatable(f'util.dissect uses {used}, util.construct writes {sorted(toks.values())}')
     for t in toks.values():
@@ -166,40 +181,72 @@ def _nexpr(n, env):
 
 
 def _append_id(repo):
-    fn = find_def(_tree(repo, UTIL), 'append')
-    sets = [s for s in ast.walk(fn) if isinstance(s, ast.Assign) and ast.unparse(s.targets[0]) == 'table[name]']
+    tree = _tree(repo, UTIL)
+    fn = find_def(tree, 'append')
+    params = [a.arg for a in fn.args.args]
+    if len(params) < 3:
+        raise Untranslatable('util.append: signature changed')
+    ptable, pindex = params[1], params[2]
+    where = fn
+    # the registration may live in a module-level helper called with (key, table, index) in some order
+    calls = [c for c in ast.walk(fn) if isinstance(c, ast.Call) and isinstance(c.func, ast.Name)
+             and c.func.id not in ('construct', 'len', 'str', 'int')]
+    for c in calls:
+        hs = [d for d in tree.body if isinstance(d, ast.FunctionDef) and d.name == c.func.id]
+        if len(hs) == 1 and not c.keywords and len(c.args) == len(hs[0].args.args) \
+                and all(isinstance(a, ast.Name) for a in c.args):
+            bind = {a.id: p.arg for a, p in zip(c.args, hs[0].args.args)}
+            if ptable in bind and pindex in bind:
+                where, ptable, pindex = hs[0], bind[ptable], bind[pindex]
+    sets = [s for s in ast.walk(where) if isinstance(s, ast.Assign) and len(s.targets) == 1
+            and isinstance(s.targets[0], ast.Subscript) and ast.unparse(s.targets[0].value) == ptable
+            and isinstance(s.targets[0].slice, ast.Name)]
     if len(sets) != 1:
-        raise Untranslatable('util.append: expected one assignment to table[name]')
-    guard = [s for s in fn.body if isinstance(s, ast.If)]
-    # `name not in table` / `name not in index`: the same test on a bijective table
-    if len(guard) != 1 or ast.unparse(guard[0].test) not in ('name not in table', 'name not in index') \
+        raise Untranslatable('util.append: expected one assignment to table[<key>]')
+    key = sets[0].targets[0].slice.id
+    guard = [s for s in where.body if isinstance(s, ast.If)]
+    # `key not in table` / `key not in index`: the same test on a bijective table
+    if len(guard) != 1 or ast.unparse(guard[0].test) not in (f'{key} not in {ptable}', f'{key} not in {pindex}') \
             or guard[0].orelse:
-        raise Untranslatable('util.append: expected `if name not in table:`')
+        raise Untranslatable('util.append: expected `if <key> not in table:`')
     body = [ast.unparse(s) for s in guard[0].body if not isinstance(s, ast.Pass)]
-    if body != [ast.unparse(sets[0]), 'index.append(name)']:
+    if body != [ast.unparse(sets[0]), f'{pindex}.append({key})']:
         raise Untranslatable(f'util.append: unexpected body {body}')
-    return _nexpr(sets[0].value, {'len(index)': 'lenIndex', 'len(table)': 'lenTable'})
+    return _nexpr(sets[0].value, {f'len({pindex})': 'lenIndex', f'len({ptable})': 'lenTable'})
 
 
 def _next(repo):
     fn = find_def(_tree(repo, INIT), 'next')
-    comp = [s for s in fn.body if isinstance(s, ast.Assign) and ast.unparse(s.targets[0]) == 'known']
-    ret = [s for s in fn.body if isinstance(s, ast.Return)]
-    if len(comp) != 1 or len(ret) != 1:
-        raise Untranslatable('shelve.next: expected `known = [...]` and one return')
+    comp = [s for s in fn.body if isinstance(s, ast.Assign) and len(s.targets) == 1
+            and isinstance(s.targets[0], ast.Name) and isinstance(s.value, ast.ListComp)]
+    ret = [s for s in ast.walk(fn) if isinstance(s, ast.Return)]
+    if len(comp) != 1 or not ret:
+        raise Untranslatable('shelve.next: expected one `<ids> = [...]` and a return')
+    known = comp[0].targets[0].id
     lc = comp[0].value
-    if not (isinstance(lc, ast.ListComp) and len(lc.generators) == 1 and not lc.generators[0].ifs
+    if not (len(lc.generators) == 1 and not lc.generators[0].ifs
             and ast.unparse(lc.generators[0].iter) == 'util.prime_keys(DBI().tables.prime)'
-            and ast.unparse(lc.generators[0].target) == 'key'):
+            and isinstance(lc.generators[0].target, ast.Name)):
         raise Untranslatable(f'shelve.next: comprehension {ast.unparse(lc)}')
+    key = lc.generators[0].target.id
     elt = lc.elt
     if not (isinstance(elt, ast.Call) and ast.unparse(elt.func) == 'int' and len(elt.args) == 1
-            and isinstance(elt.args[0], ast.Subscript) and ast.unparse(elt.args[0].value) == 'key'
+            and isinstance(elt.args[0], ast.Subscript) and ast.unparse(elt.args[0].value) == key
             and isinstance(elt.args[0].slice, ast.Constant) and elt.args[0].slice.value in range(6)):
         raise Untranslatable(f'shelve.next: element {ast.unparse(elt)}')
     col = elt.args[0].slice.value
-    env = {'max(known)': 'listMax known', 'min(known)': 'listMin known', 'len(known)': 'known.length'}
-    v = ret[0].value
+    env = {f'max({known})': 'listMax known', f'min({known})': 'listMin known', f'len({known})': 'known.length'}
+    after = fn.body[fn.body.index(comp[0]) + 1:]
+    after = [s for s in after if not isinstance(s, ast.Pass)]
+    # `if <test on ids>: return A` followed by `return B`  ==  `return A if <test> else B`
+    if (len(after) == 2 and isinstance(after[0], ast.If) and not after[0].orelse and len(after[0].body) == 1
+            and isinstance(after[0].body[0], ast.Return) and isinstance(after[1], ast.Return)):
+        v = ast.IfExp(test=after[0].test, body=after[0].body[0].value, orelse=after[1].value)
+    else:
+        rets = [s for s in fn.body if isinstance(s, ast.Return)]
+        if len(rets) != 1 or len(ret) != 1:
+            raise Untranslatable('shelve.next: expected one return')
+        v = rets[0].value
     if isinstance(v, ast.Name):  # `result = <expr>; return result`
         defs = [s for s in fn.body if isinstance(s, ast.Assign) and ast.unparse(s.targets[0]) == v.id]
         if len(defs) != 1:
@@ -207,13 +254,16 @@ def _next(repo):
         v = defs[0].value
     if isinstance(v, ast.IfExp):
         test = ast.unparse(v.test)
-        if test == 'known':
+        if test == known:
             cond = '!known.isEmpty'
-        elif test == 'not known':
+        elif test == f'not {known}':
             cond = 'known.isEmpty'
         else:
             raise Untranslatable(f'shelve.next: condition {test}')
-        return col, f'if {cond} then {_nexpr(v.body, env)} else {_nexpr(v.orelse, env)}'
+        a, b = _nexpr(v.body, env), _nexpr(v.orelse, env)
+        if cond == 'known.isEmpty':     # one canonical text for both polarities
+            cond, a, b = '!known.isEmpty', b, a
+        return col, f'if {cond} then {a} else {b}'
     return col, _nexpr(v, env)
 
 
